@@ -179,6 +179,12 @@ def Func.result {n} (f : Func n) : Abs n := analyze f.body f.abs0
 def noMutation {n} (f : Func n) : Bool :=
   f.result.ok && f.result.wr.all (fun o => o == .fresh)
 
+/-- THE CHECKER for functions with a documented in/out argument or object state (the apps: `self`, the
+    solution `self.x`, work arrays the object allocated itself): the analysis converged and only freshly
+    allocated buffers or buffers of the `allowed` origins may be written. -/
+def writesOnly {n} (f : Func n) (allowed : List Origin) : Bool :=
+  f.result.ok && f.result.wr.all (fun o => o == .fresh || allowed.contains o)
+
 /-- origins the result may reference (`[fresh]` only: the IR claims the result shares no memory with
     any argument or captured array) -/
 def retOrigins {n} (f : Func n) : List Origin := f.result.ret
